@@ -28,3 +28,24 @@ pub fn reset_local() {
 pub fn advance_global(d: Duration) {
   GLOBAL_NS.fetch_add(d.as_nanos() as u64, Ordering::SeqCst);
 }
+
+// ---- additions of the link check (C05, round 4): virtual time for `Timestamp::now()` -------------
+// A separate, thread-local offset that only the link rig moves: `Timestamp::now()` adds it (cfg-gated
+// block in structure/time.rs) and is untouched as long as it is zero, i.e. for every other rig.
+// With it the age of fragment assembly buffers (10 s / 2 s constants of rtps/reader.rs) is
+// exercised without waiting.
+thread_local! {
+  static TS_LOCAL_NS: Cell<u64> = const { Cell::new(0) };
+}
+
+pub fn ts_offset_ns() -> u64 {
+  TS_LOCAL_NS.with(Cell::get)
+}
+
+pub fn advance_ts_local(d: Duration) {
+  TS_LOCAL_NS.with(|c| c.set(c.get() + d.as_nanos() as u64));
+}
+
+pub fn reset_ts_local() {
+  TS_LOCAL_NS.with(|c| c.set(0));
+}
